@@ -4,11 +4,12 @@
    JSON text), the same with the trailing-characters option (sound: a value followed by anything; complete: every
    value followed by anything is accepted, except that a number is read as far as it goes, so what follows a number
    must not continue it), totality (no panic, no internal error code, every error positioned inside the text).
-   Len() of a document is a theorem as well (C12_len).  The other lexeme-stream clauses (nesting, spans, rebuilt tree)
-   are covered by the correspondence
+   Len() of a document (C12_len), proper nesting of the lexeme stream (C12_nested) and containment of every span
+   (C12_spans) are theorems as well.  That literal lexemes cover exactly the literal's bytes and that the rebuilt tree
+   equals an independent decoder's is covered by the correspondence
    (model = implementation on all short token strings) plus the independent decoder used as oracle. *)
 From Coq Require Import List ZArith NArith Bool.
-From JS Require Import Base.Res Base.Lex Spec.JsonGrammar Model.JsonScan Proofs.JsonClasses Proofs.JsonSound Proofs.JsonMain Proofs.JsonComplete Proofs.JsonLen.
+From JS Require Import Base.Res Base.Lex Spec.JsonGrammar Model.JsonScan Proofs.JsonClasses Proofs.JsonSound Proofs.JsonMain Proofs.JsonComplete Proofs.JsonLen Proofs.JsonStream.
 Import ListNotations.
 Local Open Scope Z_scope.
 
@@ -71,6 +72,19 @@ Theorem C12_len : forall al w1 v w2, all_bytes (w1 ++ v ++ w2) -> ws w1 -> JValu
   jlength al (w1 ++ v ++ w2) = Ok (Z.of_nat (length w1 + length v)).
 Proof. exact length_of_text. Qed.
 Print Assumptions C12_len.
+
+(* the lexeme stream of an accepted document is properly nested: replayed on the types alone, every end lexeme closes
+   the innermost open begin lexeme of its kind and nothing stays open ... *)
+Theorem C12_nested : forall s i, all_bytes s -> jcheck false s = (Ok tt, i) ->
+  exists ls j, jlexemes false s = (Ok ls, j) /\ replay [] (map ltype ls) = Some [].
+Proof. exact accepted_nested. Qed.
+Print Assumptions C12_nested.
+(* ... and every span lies inside the text, begin <= end *)
+Theorem C12_spans : forall s i, all_bytes s -> jcheck false s = (Ok tt, i) ->
+  exists ls j, jlexemes false s = (Ok ls, j) /\
+               Forall (fun x : lexeme => (0 <= snd (fst x) <= snd x /\ snd x < Z.of_nat (length s))%Z) ls.
+Proof. exact accepted_spans. Qed.
+Print Assumptions C12_spans.
 
 (* non-vacuity: concrete texts on both sides *)
 Example C12_accepts :
